@@ -42,7 +42,8 @@ pub fn c13_oracle(c: &UriCase, canon: &str) -> Result<(), (String, String)> {
         Some(p) => p,
         None => return fail("unsplittable", "result is not scheme://authority/path".into()),
     };
-    if canon.contains('@') || p.userinfo.is_some() {
+    // ('@' is legal in a path: only an '@' inside the AUTHORITY is user-info; the component checks below pin the rest)
+    if p.userinfo.is_some() {
         return fail("userinfo-leak", "contains user-info".into());
     }
     if canon.contains('?') || p.query.is_some() {
@@ -122,8 +123,10 @@ fn c13_one(idx: u64, st: &mut Stats) {
             return Err(("helper:not-idempotent".to_string(), format!("{} -> {} -> {}", c.text, canon, twice)));
         }
         // through the raw constructor for every URI, through every builder on the sub-product
-        let t = vmc::explore::unrank(idx, &uri::radices());
-        let sub = (t[1] <= 2 || t[1] >= 6) && t[3] <= 1 && t[4] <= 2 && t[5] <= 2;
+        let sub = idx < uri::total() && {
+            let t = vmc::explore::unrank(idx, &uri::radices());
+            (t[1] <= 2 || t[1] >= 6) && t[3] <= 1 && t[4] <= 2 && t[5] <= 2
+        };
         let cons = constructors(&u);
         for (name, req) in cons.iter().take(if sub { cons.len() } else { 1 }) {
             let pu = printer_uri_of(req).ok_or_else(|| (format!("{}:missing", name), format!("{}: no printer-uri (uri syntax) in the request for {}", name, c.text)))?;
@@ -162,7 +165,7 @@ pub fn run_c13(ctx: &Ctx) -> ! {
     let mut rep = Report::new(
         ctx,
         "exploration",
-        "the complete D-uri product scheme{http,https,ipp,ipps} x user-info(6) x host(8: names, IPv4, bracketed IPv6 incl. zone) x port(7) x path(7) x query(5) = 62 720 target URIs, each through util::canonicalize_uri (+ idempotence) and IppRequestResponse::new, and a 4x3x8x2x3x3 sub-product through all 9 operation builders; the printer-uri value (in memory and as decoded from the encoded bytes by R1) is split by the string-level RFC 3986 splitter R3 and compared component-wise. distinct = URI index; non-trivial = accepted by http::Uri",
+        "the complete D-uri product scheme{http,https,ipp,ipps} x user-info(6) x host(8: names, IPv4, bracketed IPv6 incl. zone) x port(7) x path(7) x query(5) = 62 720 target URIs (thorough: + a second product of 107 520 further shapes: multiple '@' and ':' in user-info, IDN / IPv4-mapped / trailing-dot hosts, '@', ':', '+', ',' and a nested URI in the path, '@', '?', '/' in the query), each through util::canonicalize_uri (+ idempotence) and IppRequestResponse::new, and a 4x3x8x2x3x3 sub-product through all 9 operation builders; the printer-uri value (in memory and as decoded from the encoded bytes by R1) is split by the string-level RFC 3986 splitter R3 and compared component-wise. distinct = URI index; non-trivial = accepted by http::Uri",
     );
     rep.assume("a string http::Uri refuses to parse cannot be passed to the library and is outside the domain (counted in counters.rejected_by_http_uri)");
     if let Some(p) = &ctx.replay {
@@ -193,6 +196,14 @@ pub fn run_c13(ctx: &Ctx) -> ! {
         par.merge(p);
     }
     rep.section("parallel", par);
+    if ctx.tier == vmc::report::Tier::Thorough {
+        // a second product over further shapes: 4 x 8 x 8 x 6 x 10 x 7 = 107 520 more target URIs
+        let mut ext = Stats::new();
+        for p in par_range(ctx.threads, uri::total_ext(), 512, Stats::new, |st, i| c13_one(uri::total() + i, st)) {
+            ext.merge(p);
+        }
+        rep.section("extended-product", ext);
+    }
     rep.finish()
 }
 
@@ -287,7 +298,7 @@ pub fn run_c14(ctx: &Ctx) -> ! {
     let mut rep = Report::new(
         ctx,
         "exploration",
-        "the complete D-uri product (62 720 target URIs, see C13) through the private URL mapper (cfg-guarded hook verif_transport_url); result split by the string-level splitter R3 and compared component-wise: ipp->http, ipps->https, http/https kept; port = given, else 631 for both ipp and ipps; host, user-info, path (\"\" = \"/\") and query unchanged; and what the two clients do with that mapping, observed by a loopback peer (child process of the network engine): request target, Host header and connection count for scheme {ipp, http} x host {127.0.0.1, localhost} x user-info(4) x path(7) x query(5) ('@', ':' and '/' inside path and query) x client configuration {plain, basic_auth, custom header, Authorization header} = 4 480 exchanges. distinct = URI index; non-trivial = accepted by http::Uri",
+        "the complete D-uri product (62 720 target URIs, thorough + 107 520 further shapes, see C13) through the private URL mapper (cfg-guarded hook verif_transport_url); result split by the string-level splitter R3 and compared component-wise: ipp->http, ipps->https, http/https kept; port = given, else 631 for both ipp and ipps; host, user-info, path (\"\" = \"/\") and query unchanged; and what the two clients do with that mapping, observed by a loopback peer (child process of the network engine): request target, Host header and connection count for scheme {ipp, http} x host {127.0.0.1, localhost} x user-info(4) x path(7) x query(5) ('@', ':' and '/' inside path and query) x client configuration {plain, basic_auth, custom header, Authorization header} = 4 480 exchanges. distinct = URI index; non-trivial = accepted by http::Uri",
     );
     rep.assume("hook verif_transport_url is a pure pass-through to ipp_uri_to_string (add-only, cfg(ipp_verif)); that the clients really contact the URL this function returns is observed on the wire (section transport-url-on-the-wire)");
     if let Some(p) = &ctx.replay {
@@ -322,6 +333,13 @@ pub fn run_c14(ctx: &Ctx) -> ! {
         par.merge(p);
     }
     rep.section("parallel", par);
+    if ctx.tier == vmc::report::Tier::Thorough {
+        let mut ext = Stats::new();
+        for p in par_range(ctx.threads, uri::total_ext(), 512, Stats::new, |st, i| c14_one(uri::total() + i, st)) {
+            ext.merge(p);
+        }
+        rep.section("extended-product", ext);
+    }
     // what the clients do with that mapping: request target and Host header seen by a loopback peer for
     // {blocking, async} x scheme {ipp, http} x host {127.0.0.1, localhost} x user-info(4) x path(7, some with '@')
     // x query(5, some with '@') x client configuration {plain, basic_auth, custom header, Authorization header}
